@@ -9,7 +9,7 @@ EXPLANATION = (
     "augmented, never stored un-copied, transitively through the resolved callees it is passed to (super().__init__, NMEA2000Decoder(...), "
     "split_pgn_list). [NO-GLOBAL-WRITE] no function of the package (1359 generated + hand-written) declares global/nonlocal or mutates a module-level "
     "name (lookup tables included). [INSTANCE-STATE] decoder/encoder attributes are created in __init__; later stores are only the inventoried ones. "
-    "[FRESH-MSG] every leaf decoder constructs its message inside the call and returns that object (C01 GEN-DEC return obligations). [RA-SAFE] in the "
+    "[STATE-DEPS] the guards of every return/store in _decode, _decode_fast_message and _call_decode_function read only configuration attributes (never mutated outside __init__), the source map and the reassembly buffers -- bookkeeping such as the logged-PGN set decides nothing. [FRESH-MSG] every leaf decoder constructs its message inside the call and returns that object (C01 GEN-DEC return obligations). [RA-SAFE] in the "
     "reassembly step every index that can fail on a truncated frame precedes all writes to the record. UNDECIDED: 'identically after any history' as "
     "such (needs C04/C10/C11's mechanisms composed)."
 )
@@ -17,12 +17,13 @@ ASSUMPTIONS = ["CPython ast parser", "method resolution inside ioclient.py by cl
 
 def run(chk, program, tier):
     for r, t in (('NO-CLASS-STATE', 'no shared mutable class attribute'), ('DEFAULTS-RO', 'mutable defaults are read-only, transitively'), ('NO-GLOBAL-WRITE', 'no module-level state written'),
-                 ('INSTANCE-STATE', 'state created per instance'), ('FRESH-MSG', 'message objects are fresh per decode'), ('RA-SAFE', 'raise before write in reassembly')):
+                 ('INSTANCE-STATE', 'state created per instance'), ('STATE-DEPS', 'only configuration, source map and reassembly buffers influence results; configuration is immutable'), ('FRESH-MSG', 'message objects are fresh per decode'), ('RA-SAFE', 'raise before write in reassembly')):
         chk.rule(r, t)
     I.no_class_state(chk, program)
     I.defaults_ro(chk, program)
     I.no_global_write(chk, program)
     I.instance_state(chk, program)
+    I.state_deps(chk, program)
     # FRESH-MSG: reuse GEN-DEC's return obligations
     before = len(chk.obs)
     R.gen_dec(chk, program, slots=[], rule='FRESH-MSG', with_msg=False, with_flow=True)
